@@ -401,3 +401,25 @@ PROPERTIES["C23"] = dict(
     harnesses=[],
     smt=dict(module="props_c23", K=6, N=24, timeout_ms=600000),
 )
+
+# --------------------------------------------------------------------------- C12
+PROPERTIES["C12"] = dict(
+    title="Hash-binding layout maps are ordered, disjoint and cover the file",
+    level="model_checking",
+    engine="smt",
+    technique="symbolic execution of the Rust source (syn AST -> bit-vector SMT) of the PNG box-map builder over an in-memory stream model, decided by z3; native replay",
+    level_text=("Bounded symbolic checking of the PNG box-map SOURCE: the file is the PNG signature followed by arbitrary bytes (chunk lengths, "
+                "names, CRCs and trailing data all symbolic); get_png_chunk_positions and PngIO::get_box_map are executed symbolically and z3 "
+                "decides for ALL such files that an accepted map is ordered, contiguous from offset 0, within the file -- and whether it covers "
+                "the whole file.  Trailing data and odd chunk lengths are exactly the structural mutants the property asks about."),
+    level_note=("PNG only (one of the five box-hash formats); files of 8 + 28 (quick) / 34 (thorough) bytes, at most 3 chunks.  JPEG, GIF, JPEG XL and "
+                "sidecar maps, and get_object_locations_from_stream, are outside (third-party parsers, not encodable).  The coverage clause has an "
+                "OPEN known finding (bytes after IEND); the twin query restricted to files that end at IEND proves coverage there.  Models: "
+                "in-memory stream + byteorder readers; String::from_utf8 of the chunk name (ASCII valid, otherwise open)."),
+    scope="sdk/src/asset_handlers/png_io.rs get_png_chunk_positions, <PngIO as AssetBoxHash>::get_box_map, PngChunkPos::end",
+    outside=["JPEG / GIF / JPEG XL / sidecar box maps", "get_object_locations_from_stream for every format", "files longer than the tier bound"],
+    assumptions=["z3 is sound for QF_BV", "the symbolic interpreter (symex.py) is faithful for the constructs it accepts (fails closed otherwise)",
+                 "model: std::io::Cursor semantics for the stream (full reads), byteorder big-endian readers"],
+    harnesses=[],
+    smt=dict(module="props_c12", K=6, N=24, timeout_ms=900000),
+)
